@@ -337,8 +337,14 @@ func checkAPIKey(r *http.Request) *AuthToken {
 	// Check if the provided API key exists.
 	token, ok := apiKeys[key]
 	if !ok {
+		// Only log the first few bytes of the key, and do not assume a minimum
+		// length, as the key is arbitrary user input.
+		keyPrefix := key
+		if len(keyPrefix) > 4 {
+			keyPrefix = keyPrefix[:4]
+		}
 		log.Tracer(r.Context()).Tracef(
-			"api: provided api key %s... is unknown", key[:4],
+			"api: provided api key %s... is unknown", keyPrefix,
 		)
 		return nil
 	}
